@@ -10,5 +10,6 @@ for d in "${ids[@]}"; do
   out=$(./check $p 2>&1); rc=$?
   git -C /repo checkout -- .
   n=$(echo "$out" | grep -c "^VIOLATION")
-  echo "$d check=$p exit=$rc violations=$n $(echo "$out" | grep -m1 '^VIOLATION' | sed 's/.*replay=//')"
+  neut=$(grep -c '"neutralised"' /verif/seeded/$d/meta.json)
+  echo "$d check=$p exit=$rc violations=$n $( [ "$neut" != "0" ] && echo '(neutralised by a later fix: expected exit 0)') $(echo "$out" | grep -m1 '^VIOLATION' | sed 's/.*replay=//')"
 done
